@@ -49,6 +49,20 @@ def structures(ctx):
                 yield ("exhaustive", p)
     for _ in range(5 if ctx.quick else 50):
         yield ("many-stems", gen2d.many_stems(rng, rng.randint(9, 13)))
+    # every way k <= 4 stems can interleave (all chord diagrams), with unequal stem lengths: quick draws 4 length vectors per
+    # diagram, thorough takes all of {1,2,3}^k for k <= 3 and {1,2}^4 plus 12 random vectors for k = 4
+    for k in (2, 3, 4):
+        for toks in gen2d.chord_diagrams(k):
+            if ctx.quick:
+                vecs = [[rng.randint(1, 3) for _ in range(k)] for _ in range(4)]
+            elif k <= 3:
+                vecs = [list(v) for v in itertools.product((1, 2, 3), repeat=k)]
+            else:
+                vecs = [list(v) for v in itertools.product((1, 2), repeat=k)] + [[rng.randint(1, 4) for _ in range(k)] for _ in range(12)]
+            for v in vecs:
+                p = gen2d.thick(toks, v, gap=rng.choice([0, 1, 1]))
+                if gen2d.is_knotted(p):
+                    yield ("diagram", p)
     for _ in range(60 if ctx.quick else 400):
         k = rng.randint(3, 8 if ctx.quick else 9)
         p = gen2d.layout(rng, k, maxlen=rng.choice([2, 4, 6]), maxgap=rng.choice([0, 1, 2]))
@@ -57,7 +71,7 @@ def structures(ctx):
 
 
 def run(ctx):
-    ctx.coverage["rule"] = ("every pairing on <= N positions (N = 8 quick, 9 thorough; beyond 6 only knotted ones) + random knotted layouts with 3-8 "
+    ctx.coverage["rule"] = ("every pairing on <= N positions (N = 8 quick, 9 thorough; beyond 6 only knotted ones) + every interleaving of <= 4 stems (all chord diagrams) with drawn/enumerated stem lengths + random knotted layouts with 3-8 "
                             "(thorough 9) stems of unequal lengths. Non-trivial = conflict graph non-empty; distinct by pair array. "
                             "Counted separately: cases where FCFS is sub-optimal.")
     lp_expr, lp_exp, lp_case = [], [], []
